@@ -185,6 +185,9 @@ type segCase struct {
 	// are taken off File.Segments (an exported field; trimming a file), then UpdateSidx + Encode: the index must
 	// describe the segments that are written (reference count, tiling, durations)
 	DropLast int `json:"dropLast,omitempty"`
+	// ReadFirst: before UpdateSidx every fragment is read once the way a caller without the init segment at hand
+	// does it (Fragment.GetFullSamples(nil), errors ignored): a read, after which the index must come out the same
+	ReadFirst bool `json:"readFirst,omitempty"`
 	NoAvoid  bool `json:"noAvoid,omitempty"` // ignore avoidKnown (reproducers of known findings) ...
 	// ... or, when names are given, only these switches (a reproducer shows its own failure even if the same
 	// input also runs into another known finding earlier in the oracle)
@@ -1146,6 +1149,16 @@ func evalSegWith(c *segCase, st *stats, keepPrft bool) *harness.Fail {
 			return fail
 		}
 	} else {
+		if c.ReadFirst {
+			for _, sg := range f.Segments {
+				for _, fr := range sg.Fragments {
+					func() {
+						defer func() { _ = recover() }()
+						_, _ = fr.GetFullSamples(nil)
+					}()
+				}
+			}
+		}
 		if err := f.UpdateSidx(c.AddIfNotExists, c.NonZeroEPT); err != nil {
 			if segDurBeyond32() {
 				// subsegment_duration has 32 bits: an error is the correct answer
@@ -1768,6 +1781,7 @@ func genCase(t *rapid.T) (segCase, string) {
 	c.AddIfNotExists = rapid.IntRange(0, 3).Draw(t, "addIfNotExists") != 0
 	c.NonZeroEPT = rapid.Bool().Draw(t, "nonZeroEPT")
 	c.Twice = rapid.Bool().Draw(t, "twice")
+	c.ReadFirst = rapid.IntRange(0, 2).Draw(t, "readFirst") == 0
 	if rapid.IntRange(0, 2).Draw(t, "dropLastSome") == 0 {
 		c.DropLast = rapid.IntRange(1, 3).Draw(t, "dropLast")
 	}
